@@ -26,7 +26,7 @@ META = {
                   "codecs.codec / graph.static_order (routine and graph caches)", "typelib.py.inspection.* (per-predicate caches)",
                   "Delayed*._resolved", "typelib.ctx.TypeContext.__missing__ (alias memo)", "typelib.api.encode/decode/marshal/unmarshal"],
     "bounds": {
-        "quick": "all sequences of length <= 3 over an alphabet of 25 operation instances (21 fixed, among them the same reference text issued from two modules, + 4 seed-rotated from 49), and all ordered pairs over the whole alphabet of 81 instances + 3 special steps: "
+        "quick": "all sequences of length <= 3 over an alphabet of 25 operation instances (21 fixed, among them the same reference text issued from two modules, + 4 seed-rotated from 49), and all ordered pairs over the whole alphabet of 91 instances + 6 special steps (mutate result / input, clear all caches, clear one public cache): "
                  "marshal / unmarshal / encode / decode / strload / isoformat on pools of equal-but-distinct operands (both member orders "
                  "of one union, equal instants with different offsets, 1 / 1.0 / True, the same text as str / bytes), build-routine ops, "
                  "deep-mutate the previous result, deep-mutate the previous input, clear caches",
@@ -244,6 +244,18 @@ def _ops():
         op("unmarshal(list[int],view of '[1, 2, 3]')", "text", lambda: _view(b"[1, 2, 3]"), lambda x: typelib.unmarshal(list[int], x)),
         op("unmarshal(list[int],same view, now '[7, 8, 9]')", "text", lambda: _view(b"[7, 8, 9]"), lambda x: typelib.unmarshal(list[int], x)),
         op("unmarshal(Gain,'0')", "text", lambda: "0", lambda x: typelib.unmarshal(M.Gain, x)),
+        # values that are equal but render differently, through one to-string routine
+        op("marshal(D('1.10'))", "numeric_alias", lambda: decimal.Decimal("1.10"), lambda x: typelib.marshal(x)),
+        op("marshal(D('1.1'))", "numeric_alias", lambda: decimal.Decimal("1.1"), lambda x: typelib.marshal(x)),
+        op("marshal(True,t=str)", "numeric_alias", lambda: True, lambda x: typelib.marshal(x, t=str)),
+        op("marshal(1,t=str)", "numeric_alias", lambda: 1, lambda x: typelib.marshal(x, t=str)),
+        op("marshal([D('1E+2')],t=list[Decimal])", "numeric_alias", lambda: [decimal.Decimal("1E+2")], lambda x: typelib.marshal(x, t=list[decimal.Decimal])),
+        op("marshal([D('100')],t=list[Decimal])", "numeric_alias", lambda: [decimal.Decimal("100")], lambda x: typelib.marshal(x, t=list[decimal.Decimal])),
+        # a text whose decoded list is longer than the tuple that reads it first
+        op("unmarshal(tuple[int,int],'[1, 2, 3]')", "text", lambda: "[1, 2, 3]", lambda x: typelib.unmarshal(tuple[int, int], x)),
+        op("unmarshal(list[int],'[1, 2, 3]')", "text", lambda: "[1, 2, 3]", lambda x: typelib.unmarshal(list[int], x)),
+        op("strload('[1, 2, 3]')", "text", lambda: "[1, 2, 3]", lambda x: serdes.strload(x)),
+        op("unmarshal(Union[int,str],'n/a')", "union_order", lambda: "n/a", lambda x: typelib.unmarshal(U1, x)),
         # annotation objects built on the spot, twice each, and dropped after the call (the address of the second one is reused)
         op("unmarshal(float|str built on the spot,'5')", "plain", lambda: "5", lambda x: (typelib.unmarshal(float | str, x), typelib.unmarshal(float | str, x))[1]),
         op("unmarshal(int|None built on the spot,None)", "plain", lambda: None, lambda x: (typelib.unmarshal(int | None, x), typelib.unmarshal(int | None, x))[1]),
@@ -254,7 +266,9 @@ def _ops():
     return core, pool
 
 
-SPECIAL = ["<mutate previous result>", "<mutate previous input>", "<clear caches>"]
+SPECIAL = ["<mutate previous result>", "<mutate previous input>", "<clear caches>",
+           # one public cache cleared on its own (cache warmth: any subset may be warm)
+           "<clear graph.static_order only>", "<clear unmarshaller only>", "<clear marshaller only>"]
 
 
 def alphabet(seed):
@@ -303,8 +317,14 @@ def run_sequence(ops, cold, seq, _nested=False):
             elif sp == "<mutate previous input>":
                 if last_input is not None:
                     deep_mutate(last_input)
-            else:
+            elif sp == "<clear caches>":
                 caches.clear_all(restore=False)  # what a user can do: the functools caches only
+            else:
+                import typelib as _tl
+                from typelib import graph as _g
+
+                {"<clear graph.static_order only>": _g.static_order, "<clear unmarshaller only>": _tl.unmarshaller,
+                 "<clear marshaller only>": _tl.marshaller}[sp].cache_clear()
             continue
         op = ops[k]
         hist.append(op.name)
@@ -345,7 +365,7 @@ def _cause(ops, cold, seq, pos):
                 prev = [ops[q].name for q in seq[:j] if q < nops]
                 victim = prev[-1] if prev else "?"
                 what = {"<mutate previous result>": "mutated_result_of", "<mutate previous input>": "mutated_input_of",
-                        "<clear caches>": "cache_clear_after"}[sp]
+                        "<clear caches>": "cache_clear_after"}.get(sp, "partial_cache_clear_after")
                 return f"{what}:{victim}"
             culprit = ops[k]
             if culprit.klass == target.klass and culprit.variant != target.variant and target.klass in ("equal_instant", "union_order", "numeric_alias", "string_ref", "equal_fold"):
